@@ -565,7 +565,7 @@ def oracle(c, stats):
     for cl in net0["clusters"]:
         if cl["k"] == "obs":
             for o in cl["obs"]:
-                if o["t"] == "z-angle" and (o.get("from_dh") or o.get("to_dh")):
+                if o["t"] == "z-angle" and (o.get("from_dh") or o.get("to_dh") or cl.get("from_dh")):
                     tolc = max(tolc, 2.0 * 1.571e-7 * nm.hdist(P[cl["from"]], P[o["to"]]))
     same_path = x0["summary"]["iterations"] == x1["summary"]["iterations"]
     if same_path:
